@@ -841,9 +841,6 @@ pub fn c08(case: &Case, out: &Outcome) -> Verdict {
     if case.range.is_some() {
         return Verdict::Skip("range given");
     }
-    if case.cfg.sort_requires {
-        return Verdict::Skip("sort_requires on");
-    }
     let q = match out {
         Outcome::Ok(q) => q,
         Outcome::ParseError(_) => return Verdict::Skip("input does not parse"),
@@ -893,6 +890,11 @@ pub fn c08(case: &Case, out: &Outcome) -> Verdict {
         }
     }
     // second half: statements away from ignored nodes are formatted exactly as without the directives
+    // (not with sort_requires on: a directive also decides whether a group of requires is sorted, so the run without
+    // directives orders statements differently; the first half still holds there)
+    if case.cfg.sort_requires {
+        return Verdict::Pass { nontrivial: true };
+    }
     let neutral = Case { source: neutralise_directives(&case.source), ..case.clone() };
     let mut nontrivial = false;
     if let Outcome::Ok(qn) = run_format(&neutral).0 {
@@ -913,10 +915,13 @@ pub fn c08(case: &Case, out: &Outcome) -> Verdict {
                 for i in 0..ti_.len() {
                     let prev_ok = i == 0 || !touches(i - 1);
                     let next_ok = i + 1 >= ti_.len() || !touches(i + 1);
-                    if !touches(i) && prev_ok && next_ok {
+                    if !touches(i) {
                         let a = &q[ta[i].0..ta[i].1];
                         let b = qn[tb[i].0..tb[i].1].replace("stylua- ignore", "stylua: ignore");
-                        if a != b {
+                        // next to an ignored node the surrounding blank lines and comments belong to the neighbour:
+                        // compare the statement's own lines there
+                        let differs = if prev_ok && next_ok { a != b } else { a.trim() != b.trim() };
+                        if differs {
                             return Verdict::Fail(format!("statement {} is not ignored but is formatted differently than without the directives: `{}` vs `{}`", i, short(a, 80), short(&b, 80)));
                         }
                     }
